@@ -66,8 +66,11 @@ package modeling
 //@ pred schedSame(t) = t.nextTickTime == old(t.nextTickTime) && (t.hasScheduledTick <==> old(t.hasScheduledTick)) && t.lastRunTickTime == old(t.lastRunTickTime) && (t.hasRunTick <==> old(t.hasRunTick))
 
 //@ fn (*Component[S, T, R]).LoadCheckpoint
-//@   property C07
+//@   property C07 C06
 //@   requires c != nil
+//@   witness decoded int = state     // the State value decoded from dto.State (declared after the first returns)
+//@   label C06.comp.load.state
+//@   ensures result == nil ==> c.State == decoded
 //@   witness gotHash int = got     // `got` is declared after the first return: a witness tolerates the unbound path
 //@   witness hashErr bool = specHash_failed   // unbound (arbitrary) on the path that returns before specHash is called
 //@   label C07.comp.spechash.unhashable
@@ -84,8 +87,11 @@ package modeling
 
 // ---- EventDrivenComponent.LoadCheckpoint ----
 //@ fn (*EventDrivenComponent[S, T, R]).LoadCheckpoint
-//@   property C07
+//@   property C07 C06
 //@   requires c != nil
+//@   witness decoded int = state     // the State value decoded from dto.State (declared after the first returns)
+//@   label C06.ed.load.state
+//@   ensures result == nil ==> c.State == decoded
 //@   witness gotHash int = got
 //@   witness hashErr bool = specHash_failed
 //@   label C07.ed.spechash.unhashable
